@@ -257,6 +257,20 @@ func c6Frames() []c6frame {
 	add("ListComp:1tuple-target", 2, false, func(a []ast.Expr) ast.Expr {
 		return &ast.ListComp{Elt: a[0], Generators: []ast.Comprehension{c6comp(c6tup(ast.Store, x()), a[1])}}
 	})
+	// a one-element tuple target (written `x,`) followed by further clauses: a different grammar
+	// alternative (comp_for with a comp_iter) than the same target in the last clause
+	add("ListComp:1tuple-target-if", 3, false, func(a []ast.Expr) ast.Expr {
+		return &ast.ListComp{Elt: a[0], Generators: []ast.Comprehension{c6comp(c6tup(ast.Store, x()), a[1], a[2])}}
+	})
+	add("ListComp:1tuple-target-for", 3, false, func(a []ast.Expr) ast.Expr {
+		return &ast.ListComp{Elt: a[0], Generators: []ast.Comprehension{c6comp(c6tup(ast.Store, x()), a[1]), c6comp(c6tup(ast.Store, y()), a[2])}}
+	})
+	add("GeneratorExp:1tuple-target-for-if", 4, false, func(a []ast.Expr) ast.Expr {
+		return &ast.GeneratorExp{Elt: a[0], Generators: []ast.Comprehension{c6comp(c6tup(ast.Store, x()), a[1]), c6comp(y(), a[2], a[3])}}
+	})
+	add("DictComp:2tuple-target-if", 4, false, func(a []ast.Expr) ast.Expr {
+		return &ast.DictComp{Key: a[0], Value: a[1], Generators: []ast.Comprehension{c6comp(c6tup(ast.Store, x(), y()), a[2], a[3])}}
+	})
 	add("ListComp:star-target", 2, false, func(a []ast.Expr) ast.Expr {
 		return &ast.ListComp{Elt: a[0], Generators: []ast.Comprehension{c6comp(c6tup(ast.Store, x(), c6star(ast.Store, y())), a[1])}}
 	})
